@@ -635,7 +635,7 @@ func genOp(t *rapid.T, pInvalid float64) Op {
 		return Op{Op: "view", A: sel(), F: compositeField(t), Star: vk.Chance(t, 0.5)}
 	case r < 61:
 		if vk.Chance(t, 0.5) {
-			return Op{Op: "elem", A: sel(), F: pickStr(t, tLists), I: vk.Uniform(t, 5) - 2}
+			return Op{Op: "elem", A: sel(), F: pickStr(t, tLists), I: vk.Uniform(t, 5) - 2, Star: vk.Chance(t, 0.5)}
 		}
 		f := pickStr(t, tMaps)
 		return Op{Op: "elem", A: sel(), F: f, K: pv(genKey(t, tMapKV[f][0], pInvalid))}
@@ -684,7 +684,9 @@ func genScenario(t *rapid.T) []Op {
 	}
 	freeze := func(cands ...int) Op { return Op{Op: "freeze", A: cands[vk.Uniform(t, len(cands))]} }
 	var ops []Op
-	switch vk.Uniform(t, 7) {
+	switch vk.Uniform(t, 8) {
+	case 7: // an element of a repeated message field, picked out of an iteration before the message is frozen, written afterwards
+		ops = []Op{{Op: "view", A: a, F: "rt"}, {Op: "elem", A: last, F: "rt", I: vk.Uniform(t, 3) - 1, Star: true}, freeze(a), scalarSet()}
 	case 0: // o.sub = m.sub, freeze one side, write through the other side's view
 		f := pickStr(t, []string{"sub", "sub", "leaf"})
 		ops = []Op{{Op: "view", A: a, F: f}, {Op: "set", A: b, F: f, V: pv(vHandle(last)), Star: true}, freeze(a, b, last),
@@ -711,7 +713,7 @@ func genScenario(t *rapid.T) []Op {
 		}
 	case 2: // repeated messages: b.rt = a.rt copies the list but shares the elements
 		ops = []Op{{Op: "view", A: a, F: "rt"}, {Op: "set", A: b, F: "rt", V: pv(vHandle(last))}, freeze(a, b),
-			{Op: "view", A: pickInt(t, a, b), F: "rt"}, {Op: "elem", A: last, F: "rt", I: vk.Uniform(t, 3) - 1}, scalarSet()}
+			{Op: "view", A: pickInt(t, a, b), F: "rt"}, {Op: "elem", A: last, F: "rt", I: vk.Uniform(t, 3) - 1, Star: vk.Chance(t, 0.5)}, scalarSet()}
 	case 3: // map of messages
 		ops = []Op{{Op: "view", A: a, F: "mst"}, {Op: "set", A: b, F: "mst", V: pv(vHandle(last))}, freeze(a, b),
 			{Op: "view", A: pickInt(t, a, b), F: "mst"}, {Op: "elem", A: last, F: "mst", K: pv(vStr("a"))}, scalarSet()}
